@@ -1,45 +1,63 @@
 """C06 — check configuration and MANIFEST entry."""
-CFG = {'assumptions': ['f64 inputs cross the boundary as bit patterns and are decoded to exact rationals; Rust f64 '
-                 'ops are IEEE-754',
+CFG = {'assumptions': ['f64 inputs cross the boundary as bit patterns and are decoded to exact rationals; Rust f64 ops are '
+                 'IEEE-754',
                  'coordinates are finite and far from overflow/underflow (|c| < 2^52, no subnormals)'],
  'count': {'quick': 30000, 'thorough': 1200000},
- 'lean_files': ['GeoModel/Centroid.lean', 'GeoModel/Ops/C06.lean'],
- 'rule': 'random geometries of all 10 types and nested mixed-dimension collections (depth<=3, empty and '
-         'degenerate members; polygons: arbitrary rings, convex shells of either winding, valid shells with '
-         '0-4 holes of either winding, flat/single-point polygons with flat holes, shells exactly covered by '
-         'their holes) in three coordinate systems (small grid; grid + integer offset up to 1.2e11 and '
-         'power-of-two scale; jittered non-dyadic floats with offsets up to 1e8), plus metamorphic pairs '
-         '(g, 2^e*g+d); distinct by input text; cases tagged triv (empty geometry) are not counted',
- 'trusted_base': ['segment lengths in the executable model are exact rationals for axis-aligned/Pythagorean '
-                  'segments and otherwise midpoints of 2^-80-relative enclosures of the square root (the '
-                  'theorems quantify over an arbitrary length function with the stated hypotheses)',
-                  'numeric comparison within tol = 16*2^-53*(n+2)*kw*kr*(M+D) (n coordinates, M max |coord|, D '
-                  'bbox extent, kw = sum|w|/|sum w| over the counted contributions, kr = worst shoelace '
-                  'condition number when a ring is outside the exact integer regime); cases whose f64 branch '
-                  'on area == 0 / net weight == 0 is within 2^-40 of a tie are skipped and counted']}
+ 'lean_files': ['GeoModel/Centroid.lean',
+                'GeoModel/Ops/C06.lean',
+                'GeoProofs/Lemmas/C06PEquiv.lean',
+                'GeoProofs/Lemmas/C06PPoly.lean',
+                'GeoProofs/Lemmas/C06PSpec.lean',
+                'GeoProofs/Lemmas/C06PScale.lean',
+                'GeoProofs/Lemmas/C06PHull.lean',
+                'GeoProofs/Lemmas/C06PPos.lean',
+                'GeoProofs/Lemmas/C06PHullA.lean'],
+ 'rule': 'random geometries of all 10 types and nested mixed-dimension collections (depth<=3, empty and degenerate '
+         'members; polygons: arbitrary rings, convex shells of either winding, valid shells with 0-4 holes of either '
+         'winding, flat/single-point polygons with flat holes, shells exactly covered by their holes) in three '
+         'coordinate systems (small grid; grid + integer offset up to 1.2e11 and power-of-two scale; jittered '
+         'non-dyadic floats with offsets up to 1e8), plus metamorphic pairs (g, 2^e*g+d); distinct by input text; '
+         'cases tagged triv (empty geometry) are not counted',
+ 'trusted_base': ['segment lengths in the executable model are exact rationals for axis-aligned/Pythagorean segments '
+                  'and otherwise midpoints of 2^-80-relative enclosures of the square root (the theorems quantify '
+                  'over an arbitrary length function with the stated hypotheses)',
+                  'numeric comparison within tol = 16*2^-53*(n+2)*kw*kr*(M+D) (n coordinates, M max |coord|, D bbox '
+                  'extent, kw = sum|w|/|sum w| over the counted contributions, kr = worst shoelace condition number '
+                  'when a ring is outside the exact integer regime); cases whose f64 branch on area == 0 / net '
+                  'weight == 0 is within 2^-40 of a tie are skipped and counted']}
 
-MANIFEST = {'note': 'Trusted: Lean 4.33 kernel (axioms propext, Classical.choice, Quot.sound only; audited per theorem '
-         'each run; no sorry, no native_decide, no added axioms); the Lean compiler running the model; the '
-         'Rust harness, generators and line protocol (sampling, not proof). The theorems are about the '
-         'hand-written model; the model is tied to the code by running both on the same inputs each run. '
-         'Lengths enter the theorems as an abstract function; f64 rounding is covered only by the tolerance of '
-         'the correspondence, not by proof.',
+MANIFEST = {'note': 'Trusted: Lean 4.33 kernel (axioms propext, Classical.choice, Quot.sound only; audited per theorem each '
+         'run; no sorry, no native_decide, no added axioms); the Lean compiler running the model; the Rust harness, '
+         'generators and line protocol (sampling, not proof). The theorems are about the hand-written model; the '
+         'model is tied to the code by running both on the same inputs each run. Lengths enter the theorems as an '
+         'abstract function; f64 rounding is covered only by the tolerance of the correspondence, not by proof.',
  'technique': 'Lean 4 proof (invariant of the accumulator fold, structural induction on the geometry tree) + '
               'model/implementation correspondence on random geometry trees',
  'text': 'Proved for the model (GeoProofs/Props/C06.lean): folding add_assign over any list of contributions keeps '
-         'exactly the contributions of maximal dimension, summed (fold_dominance); every add_* method including '
-         'its early returns and the sub-operations of add_polygon is that fold over a state-independent '
-         'contribution list, for every nesting (addGeom_is_fold, addGeom_dominant); centroid is None exactly for '
-         'empty geometries (centroid_none_iff); the shifted shoelace area and moment sums equal the textbook '
-         'ones on closed rings (ringArea_shift, ringCentroid_shift_text) and add_ring contributes exactly the '
-         "specification's atoms: |A| at the textbook centroid, the outline for a ring without area, the point for "
-         'a collapsed ring (ring_contribution_spec); zero-area rings/polygons fall back to the outline '
-         '(ring_flat_is_linestring, ring_point_is_point, polygon_zero_weight_fallback, polygon_flat_fallback); '
-         'the accumulator and the centroid move with the geometry under translation (accumulator_translate, '
-         'centroid_translate_partial: final weight non-zero). Not proved (checked on every generated case by '
-         'the driver against the independent specification centroidSpec instead): polygon-level equality of '
-         'the hole subtraction with the atoms list, uniform scaling, hull membership. The model (one Lean '
-         'function per CentroidOperation method, same branches and early returns) is compared with the real '
-         "centroid() on random geometries; the specification (textbook shoelace centroid, hole subtraction, "
-         "degenerate fallbacks, dimension dominance, hull membership, translation/scaling pairs) is evaluated on "
-         "the implementation's own output."}
+         'exactly the contributions of maximal dimension, summed (fold_dominance); every add_* method including its '
+         'early returns and the sub-operations of add_polygon is that fold over a state-independent contribution '
+         'list, for every nesting (addGeom_is_fold, addGeom_dominant); centroid is None exactly for empty geometries '
+         '(centroid_none_iff); the shifted shoelace area and moment sums equal the textbook ones on closed rings '
+         "(ringArea_shift, ringCentroid_shift_text) and add_ring contributes exactly the specification's atoms "
+         "(ring_contribution_spec); add_polygon — exterior op minus interior op, sub_assign incl. its 'Less => *self "
+         "= b' arm, zero net weight => exterior outline — contributes exactly the specification's signed atoms, for "
+         'every polygon, holes of any total area (polygon_contribution_spec); hence centroid = centroidSpec '
+         '(weighted mean of the atoms of maximal dimension) for all 10 types and every nesting '
+         '(accumulator_centroid_eq_spec: no hypothesis; centroid_eq_spec: the closed forms of a top-level Line / '
+         'flat Rect need a non-zero length, shown necessary by centroid_eq_spec_needs_len; centroid_eq_spec_of_pos); '
+         'zero-area rings/polygons fall back to the outline (ring_flat_is_linestring, ring_point_is_point, '
+         'polygon_zero_weight_fallback, polygon_flat_fallback); translation: accumulator_translate (all inputs), '
+         'centroid_translate_partial (final weight non-zero), centroid_translate (len positive on distinct points, '
+         'no polygon whose holes outweigh its shell, rects min<=max: the final weight is then positive), '
+         'centroid_translate_needs_weight (witness: with cancelling weights the model returns x/0 = 0, the code NaN, '
+         'and the statement fails); uniform scaling by any k != 0 incl. negative, for a |k|-homogeneous length, no '
+         'weight condition (accumulator_scale, centroid_scale); hull membership as an explicit convex combination '
+         "(non-negative weights summing to 1) of the geometry's coordinates: for every result of dimension 0 or 1 "
+         '(centroid_in_hull), for a single hole-free polygon in convex position of either orientation via the fan '
+         'triangulation that the shifted moment sum is (centroid_in_hull_convex), and for any nesting whose areal '
+         'members are hole-free convex polygons, rects and triangles (centroid_in_hull_convex_members). Not proved '
+         '(checked on every generated case by the driver instead): hull membership for polygons with holes (negative '
+         'weights). The model (one Lean function per CentroidOperation method, same branches and early returns) is '
+         'compared with the real centroid() on random geometries; the specification (textbook shoelace centroid, '
+         'hole subtraction, degenerate fallbacks, dimension dominance, hull membership, translation/scaling pairs) '
+         "is evaluated on the implementation's own output."}
